@@ -202,8 +202,10 @@ def check(ctx):
     dominates_all_exits(ctx, "R07-g", hw, "await self._finished_event.wait()", "TaskHandle.wait() waits for the finished event on every path (a handle that is "
                         "merely cancelling is not finished)")
     rc = ctx.fn("TaskHandle._run_coro", TASKS)
-    sets = [w for w in ctx.writers("_finished_event", modules=[TASKS]) if w[3] == "call:set"]
-    ok = len(sets) == 1 and sets[0][0] is not None and sets[0][0].qual == "TaskHandle._run_coro"
+    sets = [w for w in ctx.writers("_finished_event", modules=[TASKS, A]) if w[3] == "call:set"]
+    # (the task group's done-callback may finalise the handle of a child that never ran, F14: it runs when the task has ended)
+    ok = bool(sets) and all(w[0] is not None and w[0].qual in ("TaskHandle._run_coro", "TaskGroup._spawn.task_done") for w in sets) \
+        and sum(1 for w in sets if w[0].qual == "TaskHandle._run_coro") == 1
     ctx.ob("R07-g", rc, "the finished event is set only when the task's coroutine has ended", ok,
            detail="" if ok else f"_finished_event.set() occurs in {[w[0].qual if w[0] else '?' for w in sets]}", by=("single setter in _run_coro",))
 
